@@ -383,6 +383,9 @@ pub fn gen_doc(r: &mut Rng, mutate: u64, style: u64) -> Doc {
         let v = if style == 2 && r.coin() {
             // decoy: a dictionary that itself has a key spelled `info`
             T::Dict(vec![(b"x".to_vec(), 0, rand_small(r, 1)), (b"info".to_vec(), 0, rand_small(r, 2))])
+        } else if style >= 1 && r.chance(1, 3) {
+            // decoy: a *value* spelled like the key (e.g. `6:source4:info`), in front of or behind the real entry
+            T::s(b"info")
         } else {
             rand_small(r, 2)
         };
